@@ -5,8 +5,15 @@ A leg is one build configuration of the harness running one part of a driver in 
 """
 
 
-def leg(cfg, shards=1, part=None, scale=None, timeout=None, weight=1, env=None, of=None, budget=None):
-    d = {"cfg": cfg, "shards": shards, "weight": weight}
+def leg(cfg, shards=1, part=None, scale=None, timeout=None, weight=1, env=None, of=None, budget=None, stage=0, dir=False, python=None, pyargs=None, driver=None):
+    d = {"cfg": cfg, "shards": shards, "weight": weight, "stage": stage}
+    if driver:
+        d["driver"] = driver  # replay another property's workload in this configuration (process-level verdicts only)
+    if dir:
+        d["dir"] = True
+    if python:
+        d["python"] = python
+        d["pyargs"] = pyargs or []
     if of:
         d["of"] = of          # shards 0..shards-1 of `of`: an evenly strided sample of the enumeration
     if budget:
@@ -397,3 +404,66 @@ PLANS["C20"] = {
     "assumptions": [],
 }
 PLANS["C20"]["require"]["thorough"] = PLANS["C20"]["require"]["quick"]
+
+
+PLANS["C07"] = {
+    "driver": "c07",
+    "work_dir": True,
+    "rule": ("cases = (writer direction) structures of every documented type from the C01-C05 generators (BitVector with any subset of supports, RawVector, IntVector of every width, SparseVector incl. every low "
+             "width class and multisets, RLVector by code-unit profile with 0..2500 runs, WaveletMatrix, WMCore, byte vectors, strings, vectors, optionals) serialized by the library and decoded by an independent "
+             "Python codec written from SERIALIZATION.md alone, which also checks the document's requirements (8-byte elements, zero padding, zero unused bits, exactly one bucket per universe slice, whole runs per "
+             "64-unit block, padding only where the next run did not fit and never in the final block, one exact sample per block, minimal sample / `first` widths); (reader direction) files produced by the Python "
+             "encoder with supports absent, every sparse low width 1..=64 and minimal or wider RL sample widths, loaded by the real loader and queried against the model; distinct = digest of the file bytes"),
+    "legs": {
+        "quick": [leg("rel", 8, "write", dir=True, stage=0),
+                  leg("python", 8, python="fmt/check_written.py", pyargs=["{dir}", "{shard}", "{nshards}"], stage=1),
+                  leg("python", 1, python="fmt/encode_cases.py", pyargs=["{dir}", "{seed}", "700"], stage=1),
+                  leg("rel", 8, "read", dir=True, stage=2), leg("dbg", 8, "read", dir=True, stage=2)],
+        "thorough": [leg("rel", 16, "write", dir=True, stage=0),
+                     leg("python", 16, python="fmt/check_written.py", pyargs=["{dir}", "{shard}", "{nshards}"], stage=1),
+                     leg("python", 1, python="fmt/encode_cases.py", pyargs=["{dir}", "{seed}", "6000"], stage=1),
+                     leg("rel", 16, "read", dir=True, stage=2), leg("dbg", 16, "read", dir=True, stage=2), leg("rel-nobmi", 8, "read", dir=True, stage=2)],
+    },
+    "require": {"quick": [("counter", "written.sparse", 100), ("counter", "written.rl", 100), ("counter", "written.wm", 50), ("counter", "read.sparse", 50), ("counter", "read.rl", 50), ("counter", "read.wm", 50),
+                          ("counter", "read.sparse.width.64", 1), ("counter", "read.sparse.width.1", 1)]},
+    "level_text": ("exploration with an independent second implementation: bytes written by the library are decoded and validated by a codec written from the format document alone, and files written by that codec "
+                   "are loaded and queried through the real library against the reference model"),
+    "level_note": "conformance is to this reading of SERIALIZATION.md; ambiguities are resolved in the library's favour and listed under assumptions",
+    "technique": "runtime monitoring: differential oracle against an independent format codec (both directions) + reference-model query monitors on foreign files",
+    "assumptions": ["empty RL vector: sample width 1 is taken as minimal", "wavelet matrix of an empty vector: alphabet {0}, width 1", "WMCore width is only required to hold the largest item",
+                    "sparse low width: any w in 1..=64 is treated as admissible for a foreign writer (the document says w ~ log2(n) - log2(m), w >= 1)",
+                    "optional support structures are written as absent by the foreign writer (they cannot be produced opaquely)"],
+}
+PLANS["C07"]["require"]["thorough"] = PLANS["C07"]["require"]["quick"]
+
+
+PLANS["C08"] = {
+    "driver": "c08",
+    "rule": ("cases = structure instance + random sequence of 1..30 calls to safe public methods (122 methods of RawVector, IntVector, BitVector, RankSupport, SelectSupport<Identity|Complement> with matching and "
+             "mismatching parents, Transformation::word/bit, SparseVector, RLVector, their builders, WaveletMatrix, WMCore, mapped views' Index/Deref/bit/word/get) with arguments from "
+             "{0,1,len-1,len,len+1,len+63,next word,2len,2^63,MAX-1,MAX,random}, iterator adaptors walked with nth/nth_back(MAX), on instances built through every route, with spare capacity, after pops/clears, "
+             "loaded from bytes the library wrote, and memory-mapped; every call is recorded before it is made and run under catch_unwind (panics are legal); verdict = interpreter / sanitizer / memcheck report, "
+             "fatal signal, or the sticky flag of the bounds hooks in the unchecked accessors; other properties' workloads are replayed under ASan / valgrind / bounds hooks for process-level verdicts; "
+             "distinct = (method, argument class) pairs and (part, instance) digests"),
+    "legs": {
+        "quick": [leg("rel", 8), leg("dbg", 8), leg("rel-nobmi", 4), leg("bounds", 8), leg("asan", 8), leg("valgrind", 8, scale=8),
+                  leg("miri", 5, "raw", of=4000, budget=1500), leg("miri-wrap", 5, "bv", of=4000, budget=1500), leg("miri-wrap", 3, "sparse", of=4000, budget=1200), leg("miri-wrap", 3, "rl", of=4000, budget=800),
+                  leg("miri", 2, "wm", of=3000, budget=1200), leg("miri-native", 2, "bv", of=4000, budget=1200),
+                  leg("asan", 4, driver="c10", part="rand"), leg("asan", 4, driver="c01", part="boundary"), leg("asan", 2, driver="c09"), leg("bounds", 4, driver="c10", part="rand"), leg("bounds", 4, driver="c01", part="regime")],
+        "thorough": [leg("rel", 16), leg("dbg", 16), leg("rel-nobmi", 16), leg("bounds", 16), leg("asan", 16), leg("valgrind", 16, scale=4),
+                     leg("miri", 8, "raw", of=40000, budget=10000), leg("miri-wrap", 8, "bv", of=40000, budget=10000), leg("miri-wrap", 6, "sparse", of=40000, budget=8000), leg("miri-wrap", 6, "rl", of=40000, budget=8000),
+                     leg("miri", 4, "wm", of=30000, budget=8000), leg("miri-native", 4, "bv", of=40000, budget=8000), leg("miri-native", 4, "sparse", of=40000, budget=8000),
+                     leg("asan", 8, driver="c10", part="rand"), leg("asan", 8, driver="c10", part="exh", scale=2), leg("asan", 8, driver="c01"), leg("asan", 8, driver="c02"), leg("asan", 8, driver="c03"),
+                     leg("asan", 4, driver="c04"), leg("asan", 4, driver="c05"), leg("asan", 4, driver="c09"), leg("asan", 4, driver="c15"), leg("asan", 4, driver="c19"),
+                     leg("bounds", 8, driver="c10", part="rand"), leg("bounds", 8, driver="c01"), leg("bounds", 8, driver="c02"), leg("bounds", 8, driver="c03"), leg("bounds", 4, driver="c09"),
+                     leg("valgrind", 8, driver="c09", scale=8), leg("valgrind", 8, driver="c10", part="rand", scale=8)],
+    },
+    "require": {"quick": [("counter", "coverage.methods", 100), ("counter", "calls_panicked", 100), ("build", "bounds", "bounds", True), ("build", "rel", "overflow_checks", False),
+                          ("build", "dbg", "overflow_checks", True), ("build", "rel-nobmi", "bmi2", False), ("build", "miri", "miri", True), ("build", "miri-wrap", "overflow_checks", False), ("probe", "mmap_new", 10)]},
+    "level_text": ("exploration under instrumentation: hostile sequences of safe calls run in eight build configurations; Miri (overflow checks on and off, with and without BMI2), AddressSanitizer, valgrind memcheck "
+                   "and the feature-guarded bounds hooks watch for any access outside a structure's buffers; a clean run means no report on the executions produced, not memory safety"),
+    "level_note": "exactly the limits of the tools: ASan/memcheck miss strays that land in live memory (hence the hooks), Miri cannot run the mmap paths (hence ASan/valgrind there); nothing is said about call sequences not generated",
+    "technique": "runtime monitoring with sanitizers: Miri, AddressSanitizer, valgrind memcheck, bounds hooks, signal monitor over a hostile safe-API workload",
+    "assumptions": ["allocation sizes are capped by the workload (an allocation failure aborts and proves nothing about memory safety)"],
+}
+PLANS["C08"]["require"]["thorough"] = PLANS["C08"]["require"]["quick"]
